@@ -305,8 +305,10 @@ class Orchestrator:  # thailint: ignore[srp]
         Returns:
             List of violations found in the file.
         """
-        # Fast path: skip compiled files and common excluded directories
-        if _is_hardcoded_excluded(file_path):
+        # Fast path: skip compiled files and common excluded directories.
+        # Only the path inside the project decides: a project checked out below
+        # a directory called build/, dist/, venv/ ... must still be linted.
+        if _is_hardcoded_excluded(self._path_inside_project(file_path)):
             return []
 
         if self.ignore_parser.is_ignored(file_path):
@@ -320,6 +322,13 @@ class Orchestrator:  # thailint: ignore[srp]
         context = FileLintContext(file_path, language, metadata=metadata)
 
         return self._execute_rules(rules, context)
+
+    def _path_inside_project(self, file_path: Path) -> Path:
+        """Return file_path relative to the project root (unchanged if it lies outside)."""
+        try:
+            return file_path.resolve().relative_to(self.project_root.resolve())
+        except (ValueError, OSError):
+            return file_path
 
     def lint_files(self, file_paths: list[Path]) -> list[Violation]:
         """Lint multiple files.
